@@ -221,22 +221,22 @@ example : intersection mineP { peerP with transforms := [⟨1, 12, some 192⟩, 
     CHILD_SA record that is new afterwards consists of transforms of the matching policy entry's proposal that are also all
     in ONE of the proposals the request offered -/
 theorem c11_concrete_responder_suite_within_both (now : Nat) (request : Msg) (h : HM HRes) (hh : requestHandler now request = some h)
-    (me : XSa) (succ : Option XSa) (tape : Tape) :
-    ∀ k ∈ (runH h me succ tape).me.ext.kids, k ∈ me.ext.kids ∨
+    (me : XSa) (succ : Option XSa) (tape : Tape) (sad : List (Bytes × Nat × Bytes)) :
+    ∀ k ∈ (runH h me succ tape sad).me.ext.kids, k ∈ me.ext.kids ∨
       ∃ pol ∈ me.ext.conf.protect, (∀ t ∈ k.proposal.transforms, t ∈ pol.proposal.transforms) ∧
         ∃ sa, paySA request true = .ok sa ∧ ∃ p ∈ sa, ∀ t ∈ k.proposal.transforms, t ∈ p.transforms := by
   intro k hk
-  rcases requestHandler_kids now request h hh me succ tape k hk with h1 | ⟨pol, hp, _, _, _, _, _, _, _, _, _, _, h9, h10⟩
+  rcases requestHandler_kids now request h hh me succ tape sad k hk with h1 | ⟨pol, hp, _, _, _, _, _, _, _, _, _, _, h9, h10⟩
   · exact Or.inl h1
   · exact Or.inr ⟨pol, hp, h9, h10⟩
 
 /-- **initiator**: whatever response a handler is run on: the suite of every CHILD_SA record that is new afterwards consists of
     transforms the outstanding offer contained -/
 theorem c11_concrete_initiator_suite_from_offer (now : Nat) (response : Msg) (h : HM HRes) (hh : responseHandler now response = some h)
-    (me : XSa) (succ : Option XSa) (tape : Tape) (cr : Child) (hcr : me.ext.creating = some cr) :
-    ∀ k ∈ (runH h me succ tape).me.ext.kids, k ∈ me.ext.kids ∨ ∀ t ∈ k.proposal.transforms, t ∈ cr.proposal.transforms := by
+    (me : XSa) (succ : Option XSa) (tape : Tape) (sad : List (Bytes × Nat × Bytes)) (cr : Child) (hcr : me.ext.creating = some cr) :
+    ∀ k ∈ (runH h me succ tape sad).me.ext.kids, k ∈ me.ext.kids ∨ ∀ t ∈ k.proposal.transforms, t ∈ cr.proposal.transforms := by
   intro k hk
-  rcases responseHandler_kids now response h hh me succ tape cr hcr k hk with h1 | ⟨_, _, _, _, h5⟩
+  rcases responseHandler_kids now response h hh me succ tape sad cr hcr k hk with h1 | ⟨_, _, _, _, h5⟩
   · exact Or.inl h1
   · exact Or.inr h5
 
